@@ -93,6 +93,8 @@ SX := {1, "x", nil, 2.5}
 SN := {math.sqrt(-1.0), 3.0, 1.0, 0.5}
 MF := {"bb": 10000000000000000.0, "a": 1.0, "cc": -10000000000000000.0, "d": 1.5}
 MX := {"bb": 1, "a": "x", "cc": nil, "d": 2.5}
+MB := {"bb": func(x) { return x }, "a": math, "cc": iter([1]), "d": try(func() { error("e") }, func(e) { return e })}
+MB2 := {"bb": {"x": math}, "a": [iter([1])], "cc": {"y": func() { }}, "d": 1}
 cmp := func(a, b) { print("cmp", a, b); return len(string(a)) < len(string(b)) }
 cb := func(x) { print("cb", x); return len(string(x)) }
 cb2 := func(k, v) { print("cb2", k, v); return len(string(k)) }
@@ -129,6 +131,21 @@ func containerPrograms(thorough bool) []string {
 			if thorough {
 				out = append(out, wrap("decode(encode("+x+", \""+codec+"\"), \""+codec+"\")"))
 			}
+		}
+	}
+	// the error path: maps all (or three) of whose values no consumer can take, each of another type - which of
+	// them the error names must not follow the map's iteration order
+	for _, f := range detCallables() {
+		for _, c := range []string{"MB", "MB2", "[MB]", "{\"k\": MB, \"j\": MB2}"} {
+			out = append(out, wrap(f+"("+c+")"))
+			if thorough {
+				out = append(out, wrap(f+"("+c+", 2)"), wrap(f+"(\"%v\", "+c+")"), wrap(f+"("+c+", \"\", \"  \")"))
+			}
+		}
+	}
+	for _, codec := range []string{"base64", "base32", "hex", "json", "csv", "urlquery", "gzip"} {
+		for _, x := range []string{"MB", "MB2", "[MB, MB2]", "[MB2, M]", "{\"rows\": [MB], \"k\": MB2}"} {
+			out = append(out, wrap("encode("+x+", \""+codec+"\")"))
 		}
 	}
 	for _, m := range containerMethodNames() {
